@@ -303,6 +303,7 @@ Section Served.
       destruct (seto sb (hp root segs) (Dir [])) eqn:E; [|exact Hs].
       cbn [fst sorted_otree]. eapply seto_sorted; [exact Hs| |exact E]. reflexivity.
     - apply copy_move_sorted. exact Hs.
+    - unfold do_proppatch. destruct (pf r); exact Hs.
   Qed.
 
   Theorem run_sorted rs : forall sb, sorted_otree sb = true -> sorted_otree (fst (run root sb rs)) = true.
